@@ -113,10 +113,22 @@ def nontrivial(run):
     return excl and byq
 
 
+def fixed_meek(rng, opts):
+    p = rng.randint(3, 9)
+    return dict(rule=opts['rule'], arithmetic=rng.choice(['fixed', 'fixed', 'guarded']), precision=p, omega=rng.randint(max(1, p - 2), p),
+                **(dict(defeat_batch='none') if rng.random() < 0.3 else {}))
+
+
 def shard(ctx):
     n_min = 60 if ctx.quick else 400
     for i, rng in ctx.cases(n_min, 10 ** 9):
-        case = stream.make_case(ctx, rng, WEIGHTS)
+        if i % 6 == 2:
+            # runners-up that converge on the quota itself, level with one another, under fixed-point Meek / Warren: a keep factor or
+            # quota off by one unit in the last place lifts all of them over the quota in the same iteration
+            case = stream.make_case(ctx, rng, dict(G14=1), rules=['meek', 'warren'], allow_eq=False, tweak=fixed_meek)
+            ctx.count('symmetric_split_cases')
+        else:
+            case = stream.make_case(ctx, rng, WEIGHTS)
         if not stream.usable(ctx, case):
             continue
         vs, st = check(case.run)
